@@ -39,6 +39,9 @@ def m_nl(ctx, case):
     if case.get("as") == "float32":
         import numpy as np
         conv = np.float32
+    elif case.get("as"):
+        import numpy as np
+        conv = getattr(np, case["as"])      # whole degrees in a numpy integer dtype (an element of an integer array)
     for lat in case["lats"]:
         r = call(f, conv(lat))
         ctx.ev()
@@ -54,7 +57,11 @@ def m_nl(ctx, case):
             ctx.amb()
         if v not in allowed or not isinstance(v, int):
             ctx.violation(classify(lat), lat=lat, expected=sorted(allowed), observed=v)
-        # evenness
+        # evenness (not for unsigned dtypes, which cannot hold -lat)
+        if str(case.get("as", "")).startswith("uint"):
+            prev = (lat, v)
+            ctx.nontrivial(("nl", lat, case.get("as")))
+            continue
         r2 = call(f, conv(-lat))
         ctx.ev()
         if r2 != r:
@@ -128,6 +135,8 @@ def cases(ctx):
     if ctx.mine(i):
         yield "nl", {"kind": "ints", "lats": list(range(0, 91)), "sorted_abs": True}
         yield "nl", {"kind": "ints", "lats": [-k for k in range(0, 91)], "sorted_abs": True}
+        for dt in ("int8", "int16", "int32", "int64", "uint8", "uint16"):
+            yield "nl", {"kind": "ints", "lats": list(range(0, 91)), "sorted_abs": True, "as": dt}
     i += 1
     # single-precision latitudes (as taken from float32 arrays), judged only when at least 1e-4 degree away from every
     # transition (incl. 87): there the exact real value of the argument decides and no arithmetic subtlety is involved
